@@ -92,6 +92,14 @@ def _gv_bad(gvs, answers):
     return False
 
 
+def _baton(batons, t):
+    """one OS thread per scenario thread; the caller hands control over op by op"""
+    import concurrent.futures
+    if t not in batons:
+        batons[t] = concurrent.futures.ThreadPoolExecutor(max_workers=1)
+    return batons[t]
+
+
 def replay_one(scn, rec, opts):
     """returns a result dict: {"id", "status": ok|violation|truncated, ...}"""
     from . import real
@@ -107,6 +115,7 @@ def replay_one(scn, rec, opts):
         return res
     fuel = rec.get("fuel", 0)
     budget = 1000 * fuel + 100000
+    batons = {}
     try:
         for i, h in enumerate(rec["hist"]):
             op, exp, st = h["op"], h["obs"], h["st"]
@@ -120,7 +129,10 @@ def replay_one(scn, rec, opts):
                 if op["op"] not in ("load", "loadfail"):   # compiling with ANTLR is expensive and not a search
                     BUDGET.arm(budget)
                 try:
-                    obs = runner.apply(op)
+                    if opts.get("baton") and "t" in op:
+                        obs = _baton(batons, op["t"]).submit(runner.apply, op).result()
+                    else:
+                        obs = runner.apply(op)
                 finally:
                     BUDGET.disarm()
             except BudgetExceeded:
@@ -174,6 +186,8 @@ def replay_one(scn, rec, opts):
             if exp.get("ans") or exp.get("answers") or op["op"] in ("assert",):
                 res["nontrivial"] = True
     finally:
+        for ex in batons.values():
+            ex.shutdown(wait=True)
         try:
             runner.finish()
         except BaseException:
